@@ -910,6 +910,7 @@ func doCall(c *wire.Case, call *wire.Call, slots []*progSlot, shared bool) {
 		}
 		ms := v.Run(string(c.Texts[call.Text]))
 		call.Digest = "bc:" + bcDigest(v) + " m:" + digestMatches(ms)
+		labelOwnResults(call, ms)
 	case "run":
 		// run the shared, already compiled program
 		v := slots[call.Prog].v
@@ -920,6 +921,7 @@ func doCall(c *wire.Case, call *wire.Call, slots []*progSlot, shared bool) {
 		}
 		ms := v.Run(string(c.Texts[call.Text]))
 		call.Digest = "m:" + digestMatches(ms)
+		labelOwnResults(call, ms)
 	case "runfiles":
 		// the shared program over a FILE holding the text (several calls may search the same file at the same time)
 		v := slots[call.Prog].v
@@ -1462,5 +1464,33 @@ func opHugeRun(c *wire.Case, res *wire.Result) {
 			res.Counters["offsets_beyond_2^31"]++
 		}
 		prevEnd = e
+	}
+}
+
+// labelOwnResults: a caller does with its results what it likes - here it files a label of its own under every match
+// (Variables is an exported, mutable map). Results of independent calls are independent memory: after labelling, every
+// match of THIS call carries this call's label and nothing another call wrote; a result list that shares memory with
+// another call's shows the other label (and the race detector the unsynchronised writes).
+func labelOwnResults(call *wire.Call, ms engine.Matches) {
+	tag := fmt.Sprintf("g%d/p%d/t%d/%p", call.G, call.Prog, call.Text, call)
+	for i := range ms {
+		if ms[i].Variables.Value == nil {
+			continue
+		}
+		ms[i].Variables.Add("\x00owner", engine.NewValueString(tag))
+	}
+	for i := range ms {
+		if ms[i].Variables.Value == nil {
+			continue
+		}
+		if v, ok := ms[i].Variables.Get("\x00owner"); !ok || v.String().Value != tag {
+			got := "<none>"
+			if ok {
+				got = v.String().Value
+			}
+			call.Err = fmt.Sprintf("match %d of this call's own result carries the label %q after this call wrote %q into it", i, got, tag)
+			call.Digest += " foreign-label"
+			return
+		}
 	}
 }
